@@ -1101,3 +1101,7 @@ val run_pynode : string list -> string
 val is_pynode_line : string list -> bool
 
 val run_line6 : string -> string
+
+val run_value3 : string list -> string
+
+val run_line7 : string -> string
